@@ -179,7 +179,7 @@ def inject (s : St) (uid : String) (owner : Option Nat) (maxSimul dur : Nat) (oc
   else
     let oc := if oc = notAUid then uc else oc
     let uc := if uc = notAUid then oc else uc
-    if !isTask then (s, false)
+    if !isTask || uid == "" then (s, false)     -- not a task, or `!t->oid`: nothing to file it under (no usable UID)
     else
       match s.find uid with
       | some old =>
@@ -283,7 +283,7 @@ def httpSched (s : St) (peer : Nat) (urlUid : Option Nat) (tuids : List String) 
   let u := cu &&& q
   if u ≠ cu then (403, [])
   else
-    let u := if u ≠ 0 then u else q
+    let u := if u ≠ 0 then u else if q = notAUid then 0 else q     -- root: everybody's, by default its own
     let mine := (s.tasks.filter fun t => t.inTable && t.owner == u).map (·.uid)
     (200, if tuids.isEmpty then mine else tuids.filter (mine.contains ·))
 
@@ -298,7 +298,7 @@ def httpQueue (s : St) (peer : Nat) (urlUid : Option Nat) : St × Nat × List St
   let u := cu &&& q
   if u ≠ cu then (s, 403, [])
   else
-    let u := if u ≠ 0 then u else q
+    let u := if u ≠ 0 then u else if q = notAUid then 0 else q     -- root: everybody's, by default its own
     let s' := if s.dirty.contains u || decide (16 ≤ s.dirty.length) then chkpnt s else s
     match s'.files.find? (·.1 == u) with
     | some f => (s', 200, f.2.map (·.uid))
